@@ -55,7 +55,9 @@ class Ctx:
             e.update({k: str(v) for k, v in env.items()})
         w = workers or min(NCPU, 16)
         cfgp = cfg if os.path.isabs(cfg) else os.path.join(self.specdir, "cfg", cfg)
-        java = ["java", "-XX:+UseParallelGC", "-Xss64m"]
+        jtmp = self.path("jtmp")
+        os.makedirs(jtmp, exist_ok=True)
+        java = ["java", "-XX:+UseParallelGC", "-Xss64m", "-Djava.io.tmpdir=" + jtmp]
         if heap:
             java.append("-Xmx" + heap)
         cmd = ["timeout", str(timeout)] + java + ["-cp", "/opt/veriftools/tla/tla2tools.jar:/opt/veriftools/tla/CommunityModules-deps.jar",
